@@ -189,6 +189,7 @@ type c04Outcome struct {
 	ran  int
 	err  error
 	code codes.Code
+	dur  time.Duration
 }
 
 type c04Entry struct {
@@ -247,6 +248,12 @@ func c04Judge(m *vk.M, desc string, entry, state string, strict bool, c c04Call,
 	sig := fmt.Sprintf("C04:rpc:%s:%s:store-%s:", entry, c04Mode(strict), state)
 	m.Count("rpc.calls."+entry, 1)
 	m.Count("rpc.code."+out.code.String(), 1)
+	if state == "up" && out.dur > 5*time.Second && admit != (out.ran == 1 && out.err == nil) {
+		// the redis client gives up after 4 attempts of 3 s: a stalled machine can turn the
+		// reachable store into a store failure, which legitimately changes the verdict
+		m.Inconclusive("call against the reachable store took %s and deviates (ran=%d err=%v): %s", out.dur, out.ran, out.err, desc)
+		return false
+	}
 	switch {
 	case out.ran > 1:
 		m.Violate(sig+"handler-ran-twice:"+c.Name, desc, "handler ran %d times", out.ran)
@@ -309,10 +316,12 @@ func TestVerifC04RpcTable(t *testing.T) {
 		defer func() { m.Count("rpc.wall_ms.store-"+state, time.Since(t0).Milliseconds()) }()
 		for i, c := range seq {
 			var out c04Outcome
+			tc := time.Now()
 			if !vk.Within(60*time.Second, func() { out = entry.call(a, c) }) {
 				m.Inconclusive("call did not return within 60 s: %s", desc)
 				return
 			}
+			out.dur = time.Since(tc)
 			outs = append(outs, fmt.Sprintf("%s->ran=%d,code=%s", c.Name, out.ran, out.code))
 			if !c04Judge(m, fmt.Sprintf("%s;step=%d", desc, i), entry.name, state, strict, c, out) {
 				ok = false
@@ -501,6 +510,7 @@ func TestVerifC04RpcWire(t *testing.T) {
 						ctx, cancel := context.WithTimeout(ctx, 60*time.Second)
 						client := healthpb.NewHealthClient(w.conn)
 						var out c04Outcome
+						tc := time.Now()
 						if kind == "wire-unary" {
 							_, err = client.Check(ctx, &healthpb.HealthCheckRequest{}, opts...)
 						} else {
@@ -512,7 +522,7 @@ func TestVerifC04RpcWire(t *testing.T) {
 						}
 						timedOut := ctx.Err() != nil
 						cancel()
-						out.err, out.code = err, status.Code(err)
+						out.err, out.code, out.dur = err, status.Code(err), time.Since(tc)
 						out.ran = w.take()
 						w.close()
 						if timedOut {
